@@ -26,6 +26,17 @@ pub struct ConnObs {
     pub reads: Vec<u64>,
     pub skips: Vec<u64>,
     pub exited: bool,
+    /// serial number of the server-side connection this entry describes
+    pub serial: u64,
+    /// events of connections with a serial below this are not ours
+    pub floor: u64,
+    /// (event, value, microseconds since the process-wide epoch) of the first events, for diagnosis
+    pub timeline: Vec<(&'static str, u64, u64)>,
+}
+
+pub fn now_us() -> u64 {
+    static EPOCH: OnceLock<Instant> = OnceLock::new();
+    EPOCH.get_or_init(Instant::now).elapsed().as_micros() as u64
 }
 
 pub struct ConnLog {
@@ -42,7 +53,8 @@ pub fn conn_log() -> Arc<ConnLog> {
         let l2 = l.clone();
         gate::install_hook();
         gate::set_global_observer(Some(Box::new(move |point, a, b| {
-            // b = (server's local port << 16) | peer port
+            // b = (connection serial << 32) | (server's local port << 16) | peer port
+            let serial = b >> 32;
             let (port, val) = match point {
                 "conn.decode" | "conn.read.before" | "conn.skip" => (b as u32, a),
                 "client.exit" => (b as u32, 0),
@@ -62,13 +74,23 @@ pub fn conn_log() -> Arc<ConnLog> {
             }
             let mut m = l2.m.lock().unwrap();
             let e = m.entry(port).or_default();
+            // events of an older connection that used the same port pair are not ours; a newer
+            // connection takes the entry over
+            if serial < e.serial || serial < e.floor {
+                return;
+            }
+            if serial > e.serial {
+                let floor = e.floor;
+                *e = ConnObs::default();
+                e.serial = serial;
+                e.floor = floor;
+            }
+            if e.timeline.len() < 24 {
+                e.timeline.push((point, val, now_us()));
+            }
             match point {
                 "conn.decode" => {
                     LAST_PORT.with(|p| p.set(port));
-                    if e.exited {
-                        // the port pair is being reused by a new connection
-                        *e = ConnObs::default();
-                    }
                     if let Some(bf) = e.pending_before.take() {
                         let n = val.saturating_sub(bf);
                         e.read_total += n;
@@ -104,6 +126,17 @@ thread_local! {
 impl ConnLog {
     pub fn get(&self, port: u32) -> ConnObs {
         self.m.lock().unwrap().get(&port).cloned().unwrap_or_default()
+    }
+    /// Called right after connecting with the serial watermark taken before the connect: whatever an
+    /// earlier connection with the same port pair left behind is dropped, its late events are ignored
+    /// from now on, and events of the new connection that arrived already are kept.
+    pub fn adopt(&self, port: u32, floor: u64) {
+        let mut m = self.m.lock().unwrap();
+        let e = m.entry(port).or_default();
+        if e.serial < floor {
+            *e = ConnObs::default();
+        }
+        e.floor = floor;
     }
     pub fn forget(&self, port: u32) {
         self.m.lock().unwrap().remove(&port);
@@ -290,12 +323,21 @@ impl Cli {
     pub fn connect(server_port: u16) -> Result<Cli, String> {
         for _ in 0..20 {
             let sock = Socket::new(Domain::IPV4, Type::STREAM, None).map_err(|e| e.to_string())?;
+            // learn the local port before connecting and drop what an earlier connection with the
+            // same (server port, client port) pair left in the log: the server cannot emit events for
+            // this pair before the connect below
+            // every connection the server constructs from now on gets a serial >= this watermark
+            #[cfg(memcrs_verif)]
+            let floor = memcrs::verif::conn_serial_watermark();
+            #[cfg(not(memcrs_verif))]
+            let floor = 0u64;
             match sock.connect_timeout(&SockAddr::from(SocketAddr::from(([127, 0, 0, 1], server_port))), Duration::from_secs(2)) {
                 Ok(()) => {
                     let s: TcpStream = sock.into();
                     let _ = s.set_nodelay(true);
                     let lp = s.local_addr().map(|a| a.port()).unwrap_or(0);
                     let key = ((server_port as u32) << 16) | lp as u32;
+                    conn_log().adopt(key, floor);
                     return Ok(Cli { s, port: key, sent: 0, rx: vec![], end: End::Open, unconfirmed_splits: 0 });
                 }
                 Err(_) => std::thread::sleep(Duration::from_millis(20)),
@@ -309,9 +351,10 @@ impl Cli {
         if self.end != End::Open {
             return;
         }
-        let _ = self.s.set_nonblocking(true);
+        let nb = self.s.set_nonblocking(true);
         let mut buf = [0u8; 65536];
         loop {
+            let _ = &nb;
             match self.s.read(&mut buf) {
                 Ok(0) => {
                     self.end = End::Eof;
